@@ -341,8 +341,9 @@ class _XSLibrary:
 
     def _mergeNeutronEnergies(self, other):
         self.neutronEnergyUpperBounds = other.neutronEnergyUpperBounds
-        # neutron velocity changes, but just use the first one.
-        if not hasattr(self, "_neutronVelocity"):
+        # neutron velocity changes, but just use the first one. A library without neutron data
+        # (GAMISO, PMATRX) merged earlier leaves a None placeholder, which is not a velocity.
+        if getattr(self, "_neutronVelocity", None) is None:
             self.neutronVelocity = other.neutronVelocity
 
     def items(self):
